@@ -28,8 +28,12 @@ func (t *zzTrie) Prove(key []byte, l uint, db youdb.Putter) error { return nil }
 
 type zzDB struct{}
 
-func (zzDB) OpenTrie(root common.Hash) (state.Trie, error)           { return &zzTrie{m: map[string][]byte{}}, nil }
-func (zzDB) OpenStorageTrie(a, root common.Hash) (state.Trie, error) { return &zzTrie{m: map[string][]byte{}}, nil }
+func (zzDB) OpenTrie(root common.Hash) (state.Trie, error) {
+	return &zzTrie{m: map[string][]byte{}}, nil
+}
+func (zzDB) OpenStorageTrie(a, root common.Hash) (state.Trie, error) {
+	return &zzTrie{m: map[string][]byte{}}, nil
+}
 func (zzDB) CopyTrie(t state.Trie) state.Trie {
 	n := &zzTrie{m: map[string][]byte{}}
 	for k, v := range t.(*zzTrie).m {
